@@ -40,6 +40,12 @@ func runOne(scenario string, prefix []int, trace bool) *explore.Outcome {
 	var w *World
 	x := vrt.Run(theT, cfg, prefix, func(s *vrt.Sched) vrt.Env {
 		w = newWorld(s, sc)
+		w.canonical = true
+		for _, c := range prefix {
+			if c != 0 {
+				w.canonical = false
+			}
+		}
 		return w
 	})
 	// different scenarios must not share trace hashes
@@ -125,7 +131,15 @@ func TestCheck(t *testing.T) {
 		perJob     []map[string]any
 		sampleDone = map[string]bool{}
 	)
-	for _, j := range jobs {
+	for ji, j := range jobs {
+		// every job gets a fair share of what is left of the budget
+		jobDeadline := deadline
+		if left := time.Until(deadline); left > 0 {
+			share := time.Duration(float64(left) / float64(len(jobs)-ji) * 1.5)
+			if d := time.Now().Add(share); d.Before(jobDeadline) {
+				jobDeadline = d
+			}
+		}
 		// Non-vacuity and determinism gate on the canonical schedule:
 		// run it twice, demand identical traces.
 		scen := j.Scenarios
@@ -156,7 +170,7 @@ func TestCheck(t *testing.T) {
 		var roots []explore.Task
 		for _, sn := range scen {
 			roots = append(roots, explore.Task{Scenario: sn, Budgets: j.Budgets, Filter: j.Filter,
-				Split: j.Split, DeadlineUnix: deadline.Unix(), Known: r.OpenKeys()})
+				Split: j.Split, DeadlineUnix: jobDeadline.Unix(), Known: r.OpenKeys()})
 		}
 		sum, err := m.Explore(roots)
 		if err != nil {
